@@ -58,7 +58,8 @@ def run_patch(patch, props, tests=True):
         for p in props:
             t0 = time.time()
             c = subprocess.run([os.path.join(VERIF, "check"), p], cwd=VERIF, capture_output=True,
-                               text=True, env=dict(os.environ, VERIF_REPO=rp))
+                               text=True, env=dict(os.environ, VERIF_REPO=rp, VERIF_STOP_ON_FIRST="1",
+                                                   VERIF_SHRINK=os.environ.get("VERIF_SHRINK", "0")))
             v = [l for l in c.stdout.splitlines() if l.startswith("violation:")]
             out["checks"][p] = {"exit": c.returncode, "wall_s": round(time.time() - t0, 1),
                                 "first": v[0][:260] if v else ""}
